@@ -458,6 +458,19 @@ def run_e(case):
                     "early_segment_starts_at_record_boundary": early.start in bounds[early.dir],
                     "early_segment_ends_at_record_boundary": early.end in bounds[early.dir],
                     "first_segment_of_direction_displaced": first_of_dir})
+    # a segment captured two or three places EARLY (s1 s4 s2 s3): a later segment waits behind a hole that is filled piecewise
+    for dist in (2, 3):
+        for j in midx:
+            prev = [i for i in midx if i < j and mid[i].dir == mid[j].dir]
+            if len(prev) < dist + 1 or prev[-dist:] != list(range(j - dist, j)):
+                continue                   # the predecessors must follow each other directly in the capture; never the first of a direction
+            pk = list(mid)
+            p = pk.pop(j)
+            pk.insert(j - dist, p)
+            run_pk(pk, {"layer": "E", "class": cname, "variant": f"advance{dist}_mss150", "reordered": True,
+                        "early_segment_starts_at_record_boundary": p.start in bounds[p.dir],
+                        "early_segment_ends_at_record_boundary": p.end in bounds[p.dir],
+                        "first_segment_of_direction_displaced": False})
     # both endpoints chose the SAME initial sequence number: segments of the two directions carry equal sequence numbers
     for isn in (5000, (1 << 32) - 200):
         for mss in (1460, 300):
